@@ -36,7 +36,7 @@ CLAIMED = {
             "Affine cells, Lagrange/DG elements of degree <= 2 (no DOF transformations); polynomial integrands so the rules are exact; permutation convention as written in mc/oracle.py.",
             "DESIGN.md §4 C03"),
     "C05": ("oracle-engine", "exhaustive enumeration of coefficient-usage patterns over integrals with NaN-poisoning of disabled coefficients, against a reference model",
-            "All assignments of non-empty coefficient-subset patterns to 1-3 integrals of different type/id (plus derivative/cancellation/constant-usage forms) are compiled; per kernel every "
+            "All assignments of non-empty coefficient-subset patterns to 1-3 integrals of different type/id and to 2-3 integrals with different quadrature rules inside one (type, id) group (plus derivative/cancellation/constant-usage forms) are compiled; per kernel every "
             "coefficient flagged disabled is NaN-poisoned, data is packed through original_coefficient_positions and the original constant order, and the result must equal R keyed by the UFL objects.",
             "A dead read of a disabled coefficient that cannot reach A is not observable; data alphabet as C01.",
             "DESIGN.md §4 C05"),
@@ -58,7 +58,7 @@ CLAIMED = {
             "Index expressions are data independent (checked implicitly by LVM/C agreement); kernels above the access budget are covered by moats/ASan only (counted in evidence).",
             "DESIGN.md §4 C08, §2.3"),
     "C09": ("oracle-engine", "bounded-exhaustive exploration: corpus x all four scalar types x {real, complex} data and every math-table entry, against the reference model",
-            "Every configuration of the C09 corpus and every math-table entry x arity is compiled for float64/float32/complex128/complex64; on real data all must agree with R within their "
+            "Every configuration of the C09 corpus, every math-table entry x arity and every unary math function applied to a real-typed AND a complex-typed operand inside one kernel is compiled for float64/float32/complex128/complex64; on real data all must agree with R within their "
             "precision, on complex data the complex kernels must equal R in complex arithmetic with UFL's conjugate placement.",
             "Complex data keeps principal branches unambiguous; single precision compared at 3e-4.",
             "DESIGN.md §4 C09"),
@@ -69,14 +69,15 @@ CLAIMED = {
             "DESIGN.md §4 C10"),
     "C06": ("oracle-engine", "exhaustive enumeration of all integral sequences up to a length over a (type, id-set, rule) alphabet against a dispatch model",
             "All ordered sequences of <= 2 (quick: reduced pair alphabet) / <= 3 integrals over {dx, ds, dS, dP} x {everywhere, 0, 2, (0,2)} x {auto, degree 2} on a triangle and on a prism, "
-            "each integral carrying the weight 2^k; for every (type, id) the listed kernels applied in sequence must add exactly R's sum of the declared integrands; all descriptor fields "
+            "each integral carrying the weight 2^k, plus all ordered triples over six interleaving id sets with equal / partly equal integrands (UFL merges those into tuple-id groups, so the IR's id order is a non-trivial permutation of the sorted order); for every (type, id) the listed kernels applied in sequence must add exactly R's sum of the declared integrands; all descriptor fields "
             "(offsets, ids, counts, shapes, hashes, cell-type tags) are recomputed from the form; several forms per module.",
             "Dispatch is judged through the documented lookup (offset range, id, cell-type tag); name maps are covered by C20.",
             "DESIGN.md §4 C06"),
     "C11": ("oracle-engine", "exhaustive enumeration of the finite space cell x degree 0..30 x scheme with every monomial, and of rule pairs, against closed forms and R",
             "Per (cell, degree, scheme, integral type) a functional whose Constant vector selects every monomial of degree q and q-1 in turn is compiled; kernel values on the reference cell "
             "and an affine image (every facet for ds) must equal the exact integrals; the weights table in the captured AST must be the basix rule, itself checked against all monomials <= q in closed form; "
-            "ordered pairs of degrees on one subdomain, metadata-free polynomial forms vs degree+4, vertex scheme and quadrature elements alone and beside other rules are compared with R.",
+            "ordered pairs of degrees on one subdomain (different integrands, and the SAME integrand under two rules incl. named-scheme / vertex partners), metadata-free polynomial forms vs degree+4, vertex scheme, "
+            "user-supplied 'custom' rules (alone, sharing points with another rule, on facets) and quadrature elements alone and beside other rules are compared with R.",
             "Affine-image truth uses basix rules of higher degree that are anchored on closed forms in the same run; quick tier limits 3D degrees (stated in evidence).",
             "DESIGN.md §4 C11"),
     "C16": ("parsers", "exhaustive enumeration of all AST trees of depth <= 2 plus all depth-3 operator chains, formatted and parsed back (pycparser / Python ast)",
@@ -85,13 +86,14 @@ CLAIMED = {
             "pycparser stands for the C grammar and ast.parse for Python; function names need only be the table entry or the bare name.",
             "DESIGN.md §4 C16, §2.4"),
     "C17": ("lvm", "exhaustive enumeration of operator x operand-kind pairs and index shapes; optimiser passes on/off compared on the compiled kernels over the corpus",
-            "All pairs of operand kinds for every overloaded operator (incl. reflected forms, near-0/near-1 floats, ints) are evaluated against the unsimplified node under C semantics; float_product on all "
+            "All pairs of operand kinds for every overloaded operator (incl. reflected forms, near-0/near-1 floats, ints) are evaluated against the unsimplified node under C semantics, in fresh interpreters "
+            "under four priming histories of as_lexpr; ALL depth-2 compositions (ordered triples of kinds x operator pairs x both sides) built through the overloads at both levels against the tree of plain nodes; float_product on all "
             "subsets; MultiIndex flattening for all small shapes and index values; every corpus kernel is compiled with the optimiser passes enabled and with each/all disabled and must agree on every entity/code pair.",
             "Folding compared exactly on three symbol environments; optimiser variants compared to 1e-11 (floating-point reassociation).",
             "DESIGN.md §4 C17"),
     "C12": ("history-runner", "stateless exhaustive enumeration of all histories up to a depth x hash seeds, one fresh process each",
-            "All histories of depth <= 2 (quick) / <= 3 (thorough) over a 9-letter alphabet of prior actions (object creation, other compilations incl. numba/JIT/macro elements/shared option dicts, "
-            "numpy print options) x PYTHONHASHSEED values are executed in fresh processes; afterwards 10 targets are generated in rotated order and compared byte for byte with the empty-history seed-0 text.",
+            "All histories of depth <= 2 (quick) / <= 3 (thorough) over a 12-letter alphabet of prior actions (object creation, other compilations incl. numba/JIT/macro elements/shared option dicts/named quadrature schemes/part=diagonal, "
+            "the targets themselves under loose table tolerances and float32, numpy print options) x PYTHONHASHSEED values are executed in fresh processes; afterwards 12 targets are generated in rotated order and compared byte for byte with the empty-history seed-0 text.",
             "Histories and seeds are bounded sets; later targets in a process are observed under the correspondingly longer histories.",
             "DESIGN.md §4 C12, §2.6"),
     "C13": ("history-runner", "exhaustive enumeration: all pairs of a request catalogue, all ordered in-process request pairs, all histories x seeds, option-source combinations",
